@@ -17,4 +17,8 @@ def case_from(name, m):
         if isinstance(m.get(k), (int, float)): c[k] = m[k]
     if isinstance(m.get('N'), (int, float)): c['N'] = int(m['N'])
     c['sanitize'] = True
-    return c
+    if 'molar-curves' in parts: c['curve_type'] = 'molar'
+    cases = [c]
+    if c['curves'] == 'one' and not func.startswith('ideal'):
+        c2 = dict(c); c2['T0'] = c2['Tc'] = c.get('Tc', 323.15); cases.append(c2)          # the branch `curve temperature == initial feed temperature`
+    return cases
